@@ -81,7 +81,7 @@ FmtPiecesDef ==
 RECURSIVE Unpack(_), UnpackSeq(_)
 Unpack(j) ==
     CASE j.k = "atom" -> Atom(j.s)
-      [] j.k = "int"  -> T("int", "", j.n, j.e, <<>>, <<>>)
+      [] j.k = "int"  -> T("int", j.s, j.n, j.e, <<>>, <<>>)
       [] j.k = "flt"  -> T("flt", j.s, j.n, j.e, <<>>, <<>>)
       [] j.k = "var"  -> Var(j.n, j.s)
       [] j.k = "anon" -> Anon
